@@ -8,7 +8,9 @@ SPEC = dict(
                'of occurrences of a residue target (nine loop invariants over fold / finite-sum spec functions; modification multipliers are '
                'inside the pure callee mod_mass); charge, adducts and isotope label default to the annotation\'s own; B / Z and unknown '
                'residues raise their ValueError-family errors and nothing else is raised; a labelled peptide goes through the composition '
-               'calculator; mz() is mass() at the resolved charge passed to adjust_mz. ALSO PROVED (A-REAL, every real mass, charge, isotope, loss, precision, all 18 ion types incl. the KeyError '
+               'calculator; mz() is mass() at the resolved charge passed to adjust_mz; mod_mass of a Mod object is the mass of its value TIMES its '
+               'multiplier, numbers pass through, and of \'|\' alternatives the first resolvable one counts; an adduct list adds up its entries '
+               '(the clause "every stated ion loses its own electrons" of _parse_adduct_mass is NOT provable on the pinned tree: known finding). ALSO PROVED (A-REAL, every real mass, charge, isotope, loss, precision, all 18 ion types incl. the KeyError '
                'for an unknown one): the real adjust_mass returns base + charge carrier + the ion type\'s neutral offset + isotope x neutron + '
                'loss (verbatim), with the carrier = charge x proton for p/n, (charge-1) x proton + the type\'s ionisation offset for fragment '
                'types, or the adduct mass; adjust_mz divides by the charge -- over the real offset tables dumped from the real modules on '
@@ -20,7 +22,7 @@ SPEC = dict(
                'neutral offset of ion type p inside adjust_mass (ground value checked under C05). '
                '_parse_charge_adducts_mass assumed pure (bounded-checked).',
     design_ref='DESIGN.md section 6, C02',
-    contracts=['masscalc', 'masssum'],
+    contracts=['masscalc', 'masssum', 'modmass'],
     technique='weakest-precondition VCs from the real AST of mass(), mz(), adjust_mass, adjust_mz against sidecar contracts (fold and finite-sum spec functions, '
               'real constant tables dumped on every run), discharged by z3 / cvc5; bounded comparison with an independent exact-rational reference from NIST masses as labelled stand-in for the numeric agreement',
     bounded=[dict(name='C02-bounded', script='bounded/C02.py')],
